@@ -209,6 +209,23 @@ func (p *printer) expr(t *term.Term) string {
 		default:
 			return "(fp.sqrt RNE " + a(0) + ")"
 		}
+	case "ffloor", "fceil", "ftrunc", "fround":
+		if fpm == "real" {
+			x := a(0)
+			fl := "(to_real (to_int " + x + "))"
+			switch t.Op {
+			case "ffloor":
+				return fl
+			case "fceil":
+				return "(- (to_real (to_int (- " + x + "))))"
+			case "ftrunc":
+				return "(ite (>= " + x + " 0.0) " + fl + " (- (to_real (to_int (- " + x + ")))))"
+			default:
+				return "(ite (>= " + x + " 0.0) (to_real (to_int (+ " + x + " 0.5))) (- (to_real (to_int (+ (- " + x + ") 0.5)))))"
+			}
+		}
+		rm := map[string]string{"ffloor": "RTN", "fceil": "RTP", "ftrunc": "RTZ", "fround": "RNA"}[t.Op]
+		return "(fp.roundToIntegral " + rm + " " + a(0) + ")"
 	case "fmax", "fmin":
 		if fpm == "real" {
 			if t.Op == "fmax" {
